@@ -8,6 +8,22 @@ ENV = "GOFLAGS=-mod=mod GOPROXY=off GOSUMDB=off GOTOOLCHAIN=local"
 
 # id -> (technique, level text, level note, design ref)
 CLAIMS = {
+ "C01": ("ownership analysis of the traveler constructors, private-copy classification of in-place writes, dispatch totality over the statement oneof, ordering-domain evaluation of limit/skip/range (go/types AST)",
+         "Decides structural necessary conditions for ALL programs and graphs: (O1) AddCurrent/AddMark/Copy never store through their receiver and give the new traveler its own Marks map and Path slice (siblings derived from one traveler do not alias); (O2) the steps of the C01 alphabet write only into travelers whose current element and marks are private deep copies; (O3) every GraphStatement oneof member has an arm in the compiler and in the step inspector, each compile arm returns a processor or an error, every result type has an arm in Convert; (O4) limit/skip/range forward the received traveler unchanged, count each non-signal row once, and forward exactly when the documented predicate holds on every ordering of (row index, bounds). Does not decide row-multiset equality of the moving, filtering or projecting steps.",
+         "Trusted: go/types; the ordering-domain evaluator interprets comparison expressions only.",
+         "DESIGN.md §4 C01"),
+ "C02": ("VTA call-graph reachability (go/ssa) from each statement kind's processor to the property reader, compared with the arms of the load-elision analysis (go/types AST)",
+         "Decides a structural necessary condition for ALL traversals: (L1) every statement kind whose processor can read element properties has an arm in PipelineStepOutputs that records the step as needed (otherwise its input is compiled with loadData=false and the embedded driver returns edges without properties); (L2) arms of kinds that take client paths resolve the path's namespace or mark every mark step; (L3) the pipeline state is computed from the statement list that is compiled (after the optimisers); (L4) kinds that consult StepLoadData advance the step id. Does not decide that the index-start rewrite preserves answers, count() = rows, or equivalence of filter spellings.",
+         "Trusted: go/ssa + VTA call graph; jsonpath.GetDoc is the only way a processor reads properties.",
+         "DESIGN.md §4 C02"),
+ "C12": ("shape rule over every Processor.Process and embedded-driver lookup (go/types AST), private-copy analysis shared with C01, captured-variable lockset (go/cfg)",
+         "Decides structural necessary conditions for ALL loop programs and schedules: (M1) every step that may stand between a mark and a jump, and every lookup of the embedded driver, forwards a signal traveler first, unchanged, on the channel ordinary rows use; (M2) set, increment and the emitting jump write only into travelers whose current element and marks are private copies; (M3) the variables shared by the jump queue's goroutines are accessed under one mutex. Does not decide the termination-detection protocol of JumpMark under all interleavings (a model-checking question), nor loss/duplication during shutdown.",
+         "Trusted: go/types, go/cfg.",
+         "DESIGN.md §4 C12"),
+ "C17": ("must-lockset over go/cfg for fields of shared objects; captured-variable race rule for goroutine-starting functions (go/types AST + go/cfg)",
+         "Decides the clause 'no data races on shared state' structurally for ALL schedules: (G1) for each struct type shared by concurrently running handlers or step goroutines (table confirmed by reading), every field written after construction is accessed only under a common mutex of the object; (G2) in every request-reachable function that starts goroutines, each local shared with them is accessed before the first go statement, after the join, atomically, or under a common mutex (helper closures called from goroutines are processes of their own). Does not decide linearizability of the final state, races inside storage engines or protobuf internals, or ownership transfer through channels.",
+         "Trusted: go/types, go/cfg; every exported method of a shared type can run concurrently with every other; locks are identified by expression text within one type's methods.",
+         "DESIGN.md §4 C17"),
  "C05": ("must-pass-through dataflow on per-method specialised CFGs + table totality (go/types, go/cfg)",
          "Decides a structural necessary condition for ALL methods/transports: every RPC of every registered service is in the auth tables; in both interceptor closures, specialised per method, a checked Validate and a checked Enforce(user, request graph, MethodMap[method]) dominate every reachable handler call and a handler call is reachable; the bulk write filter enforces per element; interceptors are installed on the gRPC server and on every direct (HTTP gateway) client of the real server; the generated gateway shims route through the interceptor with the right FullMethod. Does not decide the policy engine, credential parsing, or what handlers do after the check.",
          "Trusted: go/types, go/cfg, grpc-go interceptor chaining, grpc_middleware chain order; NullAuth/NullAccess accept everything.",
